@@ -34,11 +34,12 @@ def c_fornostep(g, inner):
     v = g.var('_f')
     return [('for', v, g.hf([0, 1, 2]), g.hf([0, 1, 2]), None, [T(('var', v))] + inner), T(N(4))]
 def c_foreach(g, inner):
-    return [T(('foreach', [T(('arr', [('var', '_x'), ('var', '_forEachIndex')]))] + inner + [('var', '_forEachIndex')], ('arr', [g.hf([5, 6]), N(7), ('str', b's')]))), T(N(4))]
+    return [T(('foreach', [T(('arr', [('var', '_x'), ('var', '_forEachIndex')]))] + inner + [('assign', '_x', N(55)), ('var', '_forEachIndex')], ('arr', [g.hf([5, 6]), N(7), ('str', b's')]))), T(N(4))]
 def c_count(g, inner):
     return [T(('countc', [T(('var', '_x'))] + inner + [('bin', '>', ('var', '_x'), g.hf([0, 1, 2, 3]))], ('arr', [N(1), N(2), N(3)])))]
 def c_selectc(g, inner):
-    return [T(('selectc', ('arr', [N(1), N(2), N(3)]), [T(('var', '_x'))] + inner + [('bin', '>=', ('var', '_x'), g.hf([1, 2, 3, 4]))]))]
+    # the body reassigns _x after deciding: the selected elements are those of the array, not what _x holds afterwards
+    return [T(('selectc', ('arr', [N(1), N(2), N(3)]), [T(('var', '_x'))] + inner + [('private', '_kp', ('bin', '>=', ('var', '_x'), g.hf([1, 2, 3, 4]))), ('assign', '_x', ('bin', '+', ('var', '_x'), N(100))), ('var', '_kp')]))]
 def c_apply(g, inner):
     return [T(('apply', ('arr', [N(1), g.hf([2, 9])]), [T(('var', '_x'))] + inner + [('bin', '*', ('var', '_x'), N(2))]))]
 def c_findif(g, inner):
